@@ -99,7 +99,10 @@ def run_one(sc):
 
     # "noout": the scheduler is the last element of the path (out stays None); departures are then not observable at a
     # tap, only through the counters, packet_in_service and the monitor
-    s.out = None if sc.get("noout") else Sink()
+    if not sc.get("noout"):
+        s.out = Sink()
+    elif sc["noout"] == 1:
+        s.out = None          # (2 = out is never assigned at all)
 
     def make_packet(i, a):
         return Packet(env.now, a["sz"], i + 1, flow_id=a["f"] - 1)
